@@ -10,14 +10,14 @@ CLAIMED = {
     "C01": ("exploration",
             "Seeded search over registration histories, node behaviours, cancellation points and goroutine schedules of the Send fan-out; "
             "every run's node invocations are matched against the traversals a sequential reference model predicts (exact multiset when not "
-            "cancelled, union of chain prefixes when cancelled). A second scenario BUILDS the registry from concurrent tasks (registrations of fresh ids, threshold setters/getters on types first touched in that phase) and Sends after they all returned. Evidence, not proof: schedules are sampled.",
+            "cancelled, union of chain prefixes when cancelled). A second scenario BUILDS the registry from concurrent tasks (registrations of fresh ids, threshold setters/getters on types first touched in that phase) and Sends after they all returned. Histories re-bind node ids to new node objects and re-register pipelines with their own node list. Evidence, not proof: schedules are sampled.",
             "Atomicity between instrumented yield points; recording nodes supplied by the harness; registry static during the Sends (registration "
             "concurrent WITH a Send is C04/C07).",
             "deterministic simulation: seeded scheduler over instrumented goroutines/select/sync.Map + reference-model oracle", "4 C01"),
     "C02": ("exploration",
             "Same simulated fan-out with thresholds 0..n+1, shared sink ids, distinct error values and a canceller task placed by the scheduler at "
             "any step; Status and error are compared with what the recorded traversals allow (exact when not cancelled, sub-multiset when cancelled; "
-            "error iff a threshold is missed; context error wrapped when the dispatch ended early, also for contexts ended with a cause). Some runs add tasks that set the thresholds concurrently (also on an event type first touched during the run): the verdict must match one of the thresholds that could be in force.",
+            "error iff a threshold is missed; context error wrapped when the dispatch ended early, also for contexts ended with a cause); node errors come in several dynamic types (aggregates, typed nil pointers, joined errors) and warnings are matched by identity. Some runs add tasks that set the thresholds concurrently (also on an event type first touched during the run): the verdict must match one of the thresholds that could be in force.",
             "Sends to an event type the Broker has never been told about are outside the iff-clause (documented error).",
             "deterministic simulation: seeded scheduler + cancellation fault at every protocol step + model oracle", "4 C02"),
     "C03": ("exploration",
@@ -59,13 +59,13 @@ CLAIMED = {
             "Sequential histories up to 200 steps over events (3 ids, flush), non-gateable, no-id, clock advances around the expiry boundary, FlushAll, "
             "Close, with composition / send / gateable-composite faults, checked step by step against a GateModel; concurrent senders (2-4 tasks, "
             "FlushAll in between) are checked for conservation (each accepted event in exactly one composition, same id, real-time order) and panics; "
-            "every history up to length 4/5 over a 9-step alphabet, with and without Broker, is executed as well.",
+            "every history up to length 4/5 over a 9-step alphabet, with and without Broker, is executed as well; the Broker field is assigned / replaced / cleared on the live filter; the library's own gated.Payload (real ComposeFrom) is checked by conservation over the composites; senders go through the REAL Broker with the filter emitting through the same Broker while setters, getters and Reopen run (conservation at the sinks).",
             "Without a Broker a group that is neither composed nor visibly dropped makes the model uncertain; such runs are not judged further (counted).",
             "deterministic simulation: seeded histories, controlled clock, fault injection at the Sender/ComposeFrom seams, model oracle", "4 C11"),
     "C12": ("exploration",
             "Every Broker operation is driven while nodes call Send on the same Broker from Process, Close or Reopen, with the real gated.Filter wired "
             "to the Broker (0-3 pending groups, expired or not) and 0-2 concurrent writers queueing on the lock. Mutexes are modelled (writer "
-            "preference included), so a self-deadlock is detected exactly, at the step it forms, with lock, owner and waiting site.",
+            "preference included), so a self-deadlock is detected exactly, at the step it forms, with lock, owner and waiting site. Nodes also make removals, registrations, setters and getters from inside, and a user Gateable whose composite is Gateable and routes back to the filter is sent.",
             "Bounded liveness: every call returns within the step budget.",
             "deterministic simulation: modelled RWMutex gives exact deadlock detection under seeded schedules", "4 C12"),
     "C17": ("exploration",
@@ -73,14 +73,14 @@ CLAIMED = {
             "Process no group with expiry < T may remain (each must have been composed and sent, oldest first), FlushAll/Close must emit every group "
             "exactly once; the history ends with one flush probe per id that reveals what is still withheld; every history up to length 4/5 over a 9-step "
             "alphabet is executed; a concurrent mode opens groups from 2-4 tasks under a ticking, logged clock and then probes in small time steps: "
-            "after a successful Process at T every group whose expiry is certainly before T must have reached the Sender.",
+            "after a successful Process at T every group whose expiry is certainly before T must have reached the Sender; a backlog scenario lets up to 5000 groups expire before one Process call; the Broker field changes on the live filter.",
             "Controlled clock through Filter.NowFunc, so boundary instants are exact (the concurrent mode logs every instant the filter saw).",
             "deterministic simulation: seeded histories with clock advances at the expiry boundary + GateModel", "4 C17"),
     "C20": ("exploration",
             "Registry states reached by generated histories (several types, shared nodes, removed and overwritten pipelines); Broker.Reopen is called "
             "with no failing node and with each single node of a registered pipeline failing in turn (chosen from the tape); every node object bound "
             "into a registered pipeline must be reopened, a failure must be carried by the returned error. A second scenario issues 2-3 overlapping "
-            "Reopen calls: each call must itself reach every node (invocations are attributed to the calling task) and carry the failure; contexts are live, cancelled or expired.",
+            "Reopen calls: each call must itself reach every node (invocations are attributed to the calling task) and carry the failure; contexts are live, cancelled or expired; registered nodes may be NodeUnwrapper wrappers that count / fail their own Reopen, or by-value nodes of a non-comparable type.",
             "Iteration order over event types is a seeded choice (map range rewritten).",
             "deterministic simulation: seeded registry histories + single-node fault injection", "4 C20"),
     "C08": ("exploration",
@@ -88,14 +88,14 @@ CLAIMED = {
             "MaxFiles 0..3, TimestampOnlyOnRotate; every os call of the sink goes through a wrapper over the real file system that records each "
             "write(2) as ground truth. Oracle: each acknowledged event is exactly one whole write, no partial or stray writes, real-time order of "
             "acknowledgements equals file order, rotated names ascend in creation order, a missing file implies MaxFiles>0 and the remaining files are the newest, files renamed away keep "
-            "their content, every inode's content equals the recorded writes, the sink deletes nothing but its own <base>-<timestamp><ext> files (a sibling's file that the prune glob matches is present). The crash mode stops the scheduler at a tape-chosen step (process "
+            "their content, every inode's content equals the recorded writes, an event without bytes for the sink's format is refused, the sink deletes nothing but its own <base>-<timestamp><ext> files (a sibling's file that the prune glob matches is present). The crash mode stops the scheduler at a tape-chosen step (process "
             "kill: completed system calls persist) and evaluates the same oracle with in-flight calls allowed zero or one whole write; for one "
             "crash run in 40 the same schedule is replayed with the crash at EVERY scheduler step (fault enumeration for that schedule).",
             "Crash = process kill, not power loss (no fsync semantics).",
             "deterministic simulation: seeded scheduler + file-system seam with crash points + write-log oracle", "4 C08"),
     "C09": ("exploration",
             "Payloads are generated from the statement's shape grammar (class-tagged string/[]byte/[]string/[][]byte/wrapper-value fields behind "
-            "pointers, slices, maps incl. struct values, interface values, nested structs, Taggable maps and structs (also Taggable structs that own Taggables as fields, two structs down and as slice elements, with tagged fields declared after them), untagged maps; top-level "
+            "pointers, slices, maps incl. struct values, interface values, nested structs, Taggable maps and structs (also Taggable structs that own Taggables as fields, two structs down and as slice elements, with tagged fields declared after them; behind pointers; as map values), maps with pointer values and non-string keys, same-named struct types, untagged maps; []byte results are inspected up to their capacity; top-level "
             "pointer, value, slice, map, *string, []string) with a unique canary in every leaf; overrides over {public,sensitive,secret} x "
             "{none,redact,encrypt,hmac}; wrapper present / absent / keyless / failing for a content-addressed subset of plaintexts. A lock-step "
             "walk of input and output checks each protected leaf (redacted, decrypts under the wrapper in force, or equals an independently computed "
@@ -107,13 +107,13 @@ CLAIMED = {
             "The C09 payload space: an independent deep copy built from the same recorded draws is compared with the input after Process (also after "
             "failures); output shape, public and non-string values, lengths and keys are compared in lock-step; all-none overrides must return the very "
             "same event (also when the payload carries event info or a rotation request). Schedule part: the filter runs as a non-root node of one pipeline while an observer node of a second pipeline and the Send "
-            "caller compare the event they hold with the snapshot at six scheduler-chosen instants; 2-3 encrypt filters of as many pipelines work on ONE event under the race binary, where every race whose writer is the encrypt package is a modification of the shared original.",
+            "caller compare the event they hold with the snapshot at six scheduler-chosen instants; 2-3 encrypt filters of as many pipelines work on ONE event under the race binary, where every race whose writer is the encrypt package is a modification of the shared original; a payload that is a sync.Locker records whether it was locked.",
             "copystructure is trusted per step (its internals are not interleaved).",
             "deterministic simulation: seeded scheduler interleaving an observer pipeline with the filter + snapshot oracle", "4 C10"),
     "C13": ("exploration",
             "writer.Sink: 1-16 concurrent Process tasks, a writer that yields in the middle of each Write and fails or writes short on plan; "
             "success implies exactly one contiguous copy of the configured format's bytes. FileSink: every os call may fail (EIO, ENOSPC, short "
-            "writes) per a tape-drawn fault plan; an acknowledged event must be exactly one whole write and nothing else; special paths "
+            "writes) per a tape-drawn fault plan; events without the sink's format must be refused; an acknowledged event must be exactly one whole write and nothing else; special paths "
             "(/dev/null, stdout, stderr) are checked separately. ChannelSink: capacity 0-2, consumer early/late/never, timeout vs. context "
             "deadline 100us around each other, pre-cancelled contexts; exactly one of {delivered, nil} / {error, not delivered}, never longer than "
             "min(timeout, deadline) of simulated time (exact: discrete-event clock).",
@@ -130,14 +130,14 @@ CLAIMED = {
             "Sequential histories of writes, Reopen, external rename+Reopen and pauses (1, 29, 30, 31, 100 ms around MaxDuration=30ms) against a "
             "FileSinkModel after every step: a write rotates iff bytes-since-open >= MaxBytes>0 or age > MaxDuration>0 (age bounded by the harness's "
             "clock reads before/after the call; straddling cases are counted, not judged), never with both unset; active-file name, rotated names with "
-            "strictly increasing timestamps in creation order, modes, directory creation, at most MaxFiles rotated files right after a rotation, "
+            "strictly increasing timestamps in creation order, modes, directory creation, at most MaxFiles rotated files right after a rotation, no unexpected directory entries, modes incl. umask-sensitive ones, "
             "removals only inside the name space, decoy files survive (one of them matches the prune glob), BytesWritten matches; the directory is removed and a pre-existing active file with another mode is present in some histories.",
             "The fake clock starts at a 2026 epoch (19-digit UnixNano) so that lexicographic pruning order is the realistic one.",
             "deterministic simulation: fake clock with seeded ticks + disk seam + reference model", "4 C15"),
     "C16": ("exploration",
             "Byte strings incl. empty and non-UTF-8 canaries, salt/info on filter and event, event id present/absent; every encrypted value must "
             "decrypt under the wrapper in force (filter's or the per-event wrapper, derived twice to check determinism), every HMAC equals an "
-            "independent HKDF-SHA256/HMAC-SHA256 computation; Rotate() and rotation payloads between events; concurrently, senders and a rotator "
+            "independent HKDF-SHA256/HMAC-SHA256 computation (per-event salt/info nil, empty or set; key ids distinct, equal or empty); Rotate() and rotation payloads between events; concurrently, senders and a rotator "
             "task interleave at the filter's lock operations and each value must verify under exactly one key version that could be in force. Per-event options must reach every depth of the payload (map -> slice -> map -> struct).",
             "AEAD nonces come from crypto/rand and never enter a decision.",
             "deterministic simulation: seeded scheduler over the filter's lock points + independent crypto oracle", "4 C16"),
@@ -145,13 +145,13 @@ CLAIMED = {
             "Configurations (source nil/empty/valid, schema unset/empty/set, format unset/json/text/invalid, predicate outcomes) x payload kinds "
             "(plain, ID, Data, both, empty ID) with a harness signer that records its input and fails on plan, listed/unlisted types, Rotate between "
             "events; the stored document is parsed back and compared member by member; serialized must decode to the bytes given to the signer and "
-            "serialized_hmac to the current signer's result; a failed signature must forward and store nothing; a signer installed after construction and nil Data() are covered.",
+            "serialized_hmac to the current signer's result; a failed signature must forward and store nothing; a signer installed after construction and nil Data() are covered; 2-6 tasks share one FormatterFilter (ids unique; race binary with a cloudevents-frame filter).",
             "Mostly input generation; the fault-dependent clause is the failing signer.",
             "deterministic simulation harness: seeded configuration generation + signer fault injection", "4 C18"),
     "C19": ("exploration",
             "1-4 pipelines composed from the stock catalogue (Filter, JSON formatters, cloudevents, encrypt, gated wired to the Broker, file, "
             "writer and channel sinks) with shared nodes and formatters in mid-pipeline, 2-8 sender tasks, control tasks calling Broker.Reopen, "
-            "encrypt Rotate, cloudevents Rotate and pauses that force time rotation. Race binary: any race report with a library frame; plain "
+            "encrypt Rotate (also in-band rotation payloads; two encrypt filters built from the same salt/info slices, one with overrides), cloudevents Rotate and pauses that force time rotation. Race binary: any race report with a library frame; plain "
             "binary: no panic, no deadlock, every line written by writer/file sinks (incl. FileSinks on stdout/stderr) is one whole JSON document, no secret plaintext behind the "
             "encrypt filter.",
             "The schedule digest of these runs is not compared across processes (Go's map order inside copystructure/reflect decides how many lock "
